@@ -623,6 +623,8 @@ inductive GenMode where
   | nullPub     -- nonce_gen, pubnonce pointer NULL
   | ctr         -- nonce_gen_counter
   | ctrBadKp    -- nonce_gen_counter, all-zero keypair object
+  | ctrZeroSec  -- nonce_gen_counter, keypair object whose secret half is zero (public half intact)
+  | ctrOvfSec   -- nonce_gen_counter, keypair object whose secret half is ff..ff (public half intact)
 deriving DecidableEq, Repr
 
 inductive SignMode where
@@ -680,6 +682,8 @@ def runStep (su : HistSetup) (j : Nat) (st : HistState) : Step → HistState × 
       | .nullPub => nonceGen true false (some (stepRand su.seed j)) (some su.kp.sk) (some su.kp.pk) (some su.msg) (some su.cache) none
       | .ctr => nonceGenCounter true true ((su.ctrBase + j) % 2 ^ 64) (some su.kp) (some su.msg) (some su.cache) none
       | .ctrBadKp => nonceGenCounter true true ((su.ctrBase + j) % 2 ^ 64) (some Keys.Keypair.zero) (some su.msg) (some su.cache) none
+      | .ctrZeroSec => nonceGenCounter true true ((su.ctrBase + j) % 2 ^ 64) (some { su.kp with sk := Bytes.zeros 32 }) (some su.msg) (some su.cache) none
+      | .ctrOvfSec => nonceGenCounter true true ((su.ctrBase + j) % 2 ^ 64) (some { su.kp with sk := List.replicate 32 0xff }) (some su.msg) (some su.cache) none
     let st' := match r.out.secnonce with
       | some sn => st.set slot sn
       | none => st
